@@ -15,6 +15,11 @@ type Chooser struct {
 	// Deviations counts the non-zero choices taken so far (choice 0 is the default answer).
 	Deviations int
 	bound      int // <0: unbounded
+	// Skipped is set when the execution belongs to another shard (see ExploreSharded): the
+	// harness should end the execution as soon as convenient; its results are ignored.
+	Skipped    bool
+	shardDepth int
+	mine       func(prefix []int) bool
 }
 
 // Choose returns a value in [0,n). n must be >= 1. Beyond the prefix the default 0 is taken.
@@ -44,7 +49,15 @@ func (c *Chooser) Choose(n int) int {
 	}
 	c.trace = append(c.trace, v)
 	c.widths = append(c.widths, w)
+	c.checkShard()
 	return v
+}
+
+//go:norace
+func (c *Chooser) checkShard() {
+	if c.mine != nil && !c.Skipped && len(c.trace) == c.shardDepth && !c.mine(c.trace) {
+		c.Skipped = true
+	}
 }
 
 // Bool is Choose(2)==1.
@@ -171,5 +184,59 @@ func (c *Chooser) ChooseFree(n int) int {
 	}
 	c.trace = append(c.trace, v)
 	c.widths = append(c.widths, n)
+	c.checkShard()
 	return v
 }
+
+// ExploreSharded is Explore for multi-process runs: the subtree below every choice prefix of
+// length shardDepth belongs to exactly one shard (hash of the prefix); executions of foreign
+// subtrees are cut short through Chooser.Skipped (the harness should stop early when it is
+// set) and the whole subtree is skipped. Case ids are name+"|trace:"+TraceString(); in replay
+// mode exactly that execution is run. f must report violations itself; executions with
+// Skipped set must be ignored by f (return early). Returns executions owned by this shard.
+func ExploreSharded(r *Run, name string, shardDepth, bound int, f func(c *Chooser), stop func() bool) int64 {
+	var n int64
+	pfx := name + "|trace:"
+	if r.Replaying() {
+		if !strings.HasPrefix(r.ReplayCase(), pfx) {
+			return 0
+		}
+		c := &Chooser{prefix: ParseInts(strings.TrimPrefix(r.ReplayCase(), pfx)), bound: -1}
+		f(c)
+		return 1
+	}
+	mine := func(p []int) bool {
+		h := 0
+		for _, x := range p {
+			h = h*31 + x + 1
+		}
+		return r.Mine(h)
+	}
+	prefix := []int{}
+	for {
+		c := &Chooser{prefix: prefix, bound: bound, shardDepth: shardDepth, mine: mine}
+		f(c)
+		if c.Skipped {
+			c.trace = c.trace[:shardDepth]
+			c.widths = c.widths[:shardDepth]
+		} else {
+			n++
+		}
+		i := len(c.trace) - 1
+		for ; i >= 0; i-- {
+			if c.trace[i]+1 < c.widths[i] {
+				break
+			}
+		}
+		if i < 0 {
+			return n
+		}
+		prefix = append(append([]int{}, c.trace[:i]...), c.trace[i]+1)
+		if stop != nil && stop() {
+			return n
+		}
+	}
+}
+
+// CaseID returns the case id ExploreSharded uses for this execution.
+func (c *Chooser) CaseID(name string) string { return name + "|trace:" + c.TraceString() }
